@@ -99,6 +99,7 @@ type Explorer struct {
 	steps       int64
 	unknownBr   int64
 	truncated   int64
+	stoppedEarly bool
 	sites       map[string]*siteStat
 	reach       map[string]int64
 	reachSample map[string][]NondetVal
@@ -112,6 +113,9 @@ type Explorer struct {
 	stubsUsed   map[string]bool
 	t0          time.Time
 }
+
+// stopAllRuns is set once some run of the plan has three counterexamples.
+var stopAllRuns int32
 
 // pathSem bounds the number of paths executing at once across all runs.
 var pathSem = make(chan struct{}, 16)
@@ -236,6 +240,10 @@ func (ex *Explorer) Run() {
 				ex.mu.Lock()
 				for len(ex.work) == 0 && ex.busy > 0 && !ex.stopped {
 					ex.cond.Wait()
+				}
+				if atomic.LoadInt32(&stopAllRuns) == 1 && !ex.stopped {
+					ex.stopped = true
+					ex.stoppedEarly = true
 				}
 				if len(ex.work) == 0 || ex.stopped {
 					ex.mu.Unlock()
@@ -817,7 +825,15 @@ func (p *pathCtx) violation(site, msg string, model map[string]uint64) {
 	if n < 3 {
 		p.ex.violations = append(p.ex.violations, v)
 	}
+	if len(p.ex.violations) >= 3 && !p.ex.stopped {
+		// enough counterexamples for this run: do not spend the budget on the remaining paths,
+		// here or in the plan's other runs
+		p.ex.stopped = true
+		p.ex.stoppedEarly = true
+		atomic.StoreInt32(&stopAllRuns, 1)
+	}
 	p.ex.mu.Unlock()
+	p.ex.cond.Broadcast()
 }
 
 // assert checks an obligation on the current path.
